@@ -7,7 +7,8 @@ import (
 	"strings"
 )
 
-var stringToNoteRegex = regexp.MustCompile(`^(?P<pitch>[a-zA-Z]#?)(?P<octave>-?\d)$`)
+// octaves are written -2 -1 0 1 ... (there is no "-0")
+var stringToNoteRegex = regexp.MustCompile(`^(?P<pitch>[a-zA-Z]#?)(?P<octave>-[1-9]|\d)$`)
 
 func StringToNote(note string) (byte, error) {
 	match := stringToNoteRegex.FindStringSubmatch(note)
